@@ -33,7 +33,7 @@ CLAIMS = {
                 'are necessary conditions of the property for all inputs at '
                 'once; the behaviour itself (injectivity of naming over all '
                 'path pairs) is not decided.'
-                ' Added: NAME-STRIP-ONCE (default_name + output_file strip the extension at most once), every suffix reaching directory.append passed the parent-reference rewrite, PATH-COMPONENTWISE (no string-prefix/ordering operations on path suffixes). output_file takes no decision on the content of the name (name.endswith(...) style tests make naming non-injective).',
+                ' Added: NAME-STRIP-ONCE (default_name + output_file strip the extension at most once), every suffix reaching directory.append passed the parent-reference rewrite, PATH-COMPONENTWISE (no string-prefix/ordering operations on path suffixes). output_file takes no decision on the content of the name (name.endswith(...) style tests make naming non-injective). RULE-OWNER finds the loop over all names anywhere on the call path.',
         'note': _TB + 'Not decided: injectivity of output naming beyond the '
                 'rewrite; explicit absolute output names.',
         'technique': 'regex structure analysis (re._parser) + CFG dominance '
@@ -60,7 +60,7 @@ CLAIMS.update({
                 'special to sh or in first recipe position, and the quote '
                 'replacement lexes back to a quote. It does not decide the '
                 'round trip quote -> make -> sh for every string.'
-                ' Added after the seeded round: Writer.quote must stay a plain sh quoter (its caller quotes already-escaped text), TARGET-VAR-SCOPE (per-target flags are pattern-specific `%:` variables so options do not leak into prerequisites), ENV-EXPORT (make_command hands global_env(rule.env, rule.cmds) to the recipe), and the comma-protection instance of ESC-MAKE (F13).',
+                ' Added after the seeded round: Writer.quote must stay a plain sh quoter (its caller quotes already-escaped text), TARGET-VAR-SCOPE (per-target flags are pattern-specific `%:` variables so options do not leak into prerequisites), ENV-EXPORT (make_command hands global_env(rule.env, rule.cmds) to the recipe), and the comma-protection instance of ESC-MAKE (F13). Round 8: no over-escaping (an escape the reader does not undo in a context of the member), and one ESC-MAKE instance per producer of run-time Make variable values (F1 per producer).',
         'note': _TB + 'Not decided: that sh un-quoting o Make expansion o '
                 'quote is the identity over all strings (incl. wrap_quotes '
                 'de-duplication). Known findings F1, F10, F11 are listed in '
@@ -80,7 +80,7 @@ CLAIMS.update({
                 'exactly the reference $cmd and passes the real command as a '
                 'build-scoped variable so it is $-evaluated once. Decides '
                 'these structural clauses, not the evaluated command lines.'
-                ' Added after the seeded round: substitution patterns that can consume more than one character per match do not count as escaping, Writer.quote purity, ENV-EXPORT for ninja_command.',
+                ' Added after the seeded round: substitution patterns that can consume more than one character per match do not count as escaping, Writer.quote purity, ENV-EXPORT for ninja_command. Round 8: no over-escaping.',
         'note': _TB + 'Not decided: round trip over all strings; Windows '
                 'cmd /s /c wrapping (folded away by the posix assumption). '
                 'Ninja itself is not installed; its lexical table is cited '
@@ -122,7 +122,7 @@ CLAIMS.update({
                 'defines the variables its paths can reference; '
                 '(UNORDERED-ITER) no hash-ordered iteration in '
                 'builtins.pkg_config/versioning reaches the file.'
-                ' Added: PC-BOUND-TIEBREAK (the sort key of simplify_specifiers is evaluated symbolically for the four bound operators: the stricter bound wins). PC-READBACK: pkg-config output is split with escapes=True, auto-filled includes/libs come from install.explicit.',
+                ' Added: PC-BOUND-TIEBREAK (the sort key of simplify_specifiers is evaluated symbolically for the four bound operators: the stricter bound wins). PC-READBACK: pkg-config output is split with escapes=True, auto-filled includes/libs come from install.explicit. Auto-fill happens only for fields that are None.',
         'note': _TB + 'Not decided: what pkg-config prints; equivalence of '
                 'simplified specifier sets over all versions. Known finding '
                 'F9 (#); F7 repaired by a fix: commit.',
@@ -165,7 +165,7 @@ CLAIMS.update({
                 'flags are [global] + per-target in both _get_flags. A flag '
                 'outside the grammar is rejected by every gcc/clang, so this '
                 'is a necessary condition for all option values at once.'
-                ' Added: OPTION-IDENTITY (Option.matches is full equality and no option class weakens it; environment flag variables are split with shell.split; default include dirs are computed with CPATH neutralised).',
+                ' Added: OPTION-IDENTITY (Option.matches is full equality and no option class weakens it; environment flag variables are split with shell.split; default include dirs are computed with CPATH neutralised). Round 8: per-target flags are not filtered against the global ones; the default-include-directory probe runs with the environment flags; the -l<name> pattern is anchored as a whole (constant-folded for a sample list).',
         'note': _TB + 'Not decided: acceptance by the compiler actually '
                 'detected, effect on the program, msvc/jvm translations. F8 '
                 '(-Osize) repaired by a fix: commit.',
@@ -217,7 +217,7 @@ CLAIMS.update({
                 'three, depfile argument under the gcc flavor in all three. '
                 'It decides agreement of the code shape, not equality of the '
                 'evaluated command lines.'
-                ' Added: CompDB keeps every entry (list, unconditional append, dumped whole); ENV-EXPORT in all three command emitters; dependency-root comparison uses guard-clean roots; PASS-THROUGH: the make multi-target helper and the ninja command_build helper forward deps/order-only/variables they receive on every path (must-flow); DEPFILE-WIRING (shared with C07): Make includes the depfile of every object, Ninja names it on the rule.',
+                ' Added: CompDB keeps every entry (list, unconditional append, dumped whole); ENV-EXPORT in all three command emitters; dependency-root comparison uses guard-clean roots; PASS-THROUGH: the make multi-target helper and the ninja command_build helper forward deps/order-only/variables they receive on every path (must-flow); DEPFILE-WIRING (shared with C07): Make includes the depfile of every object, Ninja names it on the rule. compdb path text comes from string(), not the raw suffix.',
         'note': _TB + 'Not decided: equality of evaluated command lines, '
                 'working directories and environments.',
         'technique': 'cross-checking sibling implementations registered in '
@@ -247,7 +247,7 @@ CLAIMS.update({
                 'Environment.load, reset variables before replaying the '
                 'toolchain, ignore later command lines. Object equality '
                 'over all values is not decided.'
-                ' Added: EnvVarDict.reset restores the initial variables on every path (CFG must-pass); the target platform_info() detector may only be called from the configure-time capture.',
+                ' Added: EnvVarDict.reset restores the initial variables on every path (CFG must-pass); the target platform_info() detector may only be called from the configure-time capture. The reset in load_toolchain is evaluated for every member of Regenerating (lazy included).',
         'note': _TB + 'Not decided: equality of configuration objects before '
                 'save / after load over all values. F5, F6, F12 repaired by '
                 'fix: commits.',
@@ -296,7 +296,7 @@ CLAIMS.update({
                 '(NULLABLE-ROUNDTRIP) no saved field changes value across '
                 'save/load. Equality with a fresh configure over histories '
                 'and convergence are not decided.'
-                ' Added: SKIP-ONLY-IF-IDENTICAL (the lazy check compares found and extra of every cached filter; variables are reset before the toolchain replay), registration-order and new-directory clauses (known findings F14, F15). The lazy re-check records the walked directories whenever it walks (no further condition).',
+                ' Added: SKIP-ONLY-IF-IDENTICAL (the lazy check compares found and extra of every cached filter; variables are reset before the toolchain replay), registration-order and new-directory clauses (known findings F14, F15). The lazy re-check records the walked directories whenever it walks (no further condition). Round 8: both find hooks save or remove the cache file on every path; the saved cache is all or nothing; newest input vs oldest output.',
         'note': _TB + 'Not decided: equality of regenerated files with a '
                 'fresh configure over edit histories; mtime orderings; '
                 'convergence. F4 and F12 repaired by fix: commits.',
@@ -333,7 +333,7 @@ CLAIMS.update({
                 'executed script is a bootstrap path; (CACHE-REPLAY) files '
                 'found through find_files incl. extra ones are registered '
                 'on the cached path too. Archive contents are not decided.'
-                ' Added: every builtin accepting dist= forwards it to _find/find_from_filter/static_file.',
+                ' Added: every builtin accepting dist= forwards it to _find/find_from_filter/static_file. PATH-COMPONENTWISE (no substring test on a suffix) is claimed here too.',
         'note': _TB + 'Not decided: what doppel puts into the archive; that '
                 'the unpacked archive configures equivalently.',
         'technique': 'who-may-call + guard check, decorator-driven '
@@ -394,7 +394,7 @@ CLAIMS.update({
                 'branch, rpaths become -Wl,-rpath, shared libraries get a '
                 'bare-name soname whenever an output is known. Linking and '
                 'running real binaries is not decided.'
-                ' Added: LINK-WORDS-KEPT (no de-duplication of link words / forwarded options), RELPATH-IMPL, PATH-COMPONENTWISE.',
+                ' Added: LINK-WORDS-KEPT (no de-duplication of link words / forwarded options), RELPATH-IMPL, PATH-COMPONENTWISE. The development symlink of a versioned shared library points at the soname symlink.',
         'note': _TB + 'Not decided: that binaries link and run, order '
                 'correctness for arbitrary DAGs.',
         'technique': 'field writer/reader agreement + expression checks',
@@ -410,7 +410,7 @@ CLAIMS.update({
                 'the installed copy; make and ninja share all helpers; each '
                 'installable file class of the property has the documented '
                 'install root. The resulting file tree is not decided.'
-                ' Added: in BasePath.realize no root-containing result is returned before DESTDIR is prepended (CFG dominance).',
+                ' Added: in BasePath.realize no root-containing result is returned before DESTDIR is prepended (CFG dominance). Default install directories are expressed in the GNU directory variable they belong to (libdir/bindir in exec_prefix).',
         'note': _TB + 'Not decided: what doppel/patchelf produce on disk.',
         'technique': 'sibling agreement (install vs uninstall, make vs '
                      'ninja) + constant tables of install roots',
